@@ -16,16 +16,17 @@ MODNAMES = ["tank", "pump", "ctl", "aux"]
 FN = ["step", "update", "limit", "mix"]
 
 
-def library(seed, modname, with_unused, leaf_only):
+def library(seed, modname, with_unused, leaf_only, sibling_tail=False):
     g = Gen(seed, calls_focus=True)
-    g.tailcall_p = 0.45  # library functions handing over to a sibling of their module
+    g.tailcall_p = 0.45 if not sibling_tail else 1.0  # library functions handing over to a sibling of their module
     g.globals = ["total"]
     lines = ["from stationeers_pytrapic.symbols import *", "", "fur = Furnace(d2)", "sens = DaylightSensor(d3)", "heat = WallHeater(d1)", f"total = {g.r.choice([0, 1, 5])}"]
     made = []
-    nf = g.r.randrange(1, 3)
+    nf = g.r.randrange(1, 3) if not sibling_tail else 2
+    kind = g.r.random() < 0.6
     for name in g.r.sample(FN, nf):
         nargs = g.r.randrange(0, 3)
-        returns = g.r.random() < 0.6
+        returns = g.r.random() < 0.6 if not sibling_tail else kind
         body = g.function(name, nargs, returns, [] if leaf_only else list(made))
         made.append((name, nargs, returns, True))
         lines += body + [""]
@@ -35,7 +36,9 @@ def library(seed, modname, with_unused, leaf_only):
     return "\n".join(lines) + "\n", made, sorted(g.features)
 
 
-def generate(seed, with_unused=True, leaf_only=False, collide=True, state_only=False):
+def generate(seed, with_unused=True, leaf_only=False, collide=True, state_only=False, sibling_tail=False):
+    """sibling_tail: every library has two functions, the second ends in a call of the first (which the main file does not
+    call), the main file calls the second twice and owns a function with the first one's name"""
     if state_only:
         return generate_state_only(seed)
     r = random.Random(seed)
@@ -45,7 +48,7 @@ def generate(seed, with_unused=True, leaf_only=False, collide=True, state_only=F
     feats = {"modules:%d" % nmods}
     imports, handles = [], []
     for k, m in enumerate(mods):
-        text, made, f = library(seed * 7 + k, m, with_unused and r.random() < 0.5, leaf_only)
+        text, made, f = library(seed * 7 + k, m, with_unused and r.random() < 0.5, leaf_only, sibling_tail)
         sources[m] = text
         feats.update(f)
         if r.random() < 0.4:
@@ -61,11 +64,11 @@ def generate(seed, with_unused=True, leaf_only=False, collide=True, state_only=F
     main = ["from stationeers_pytrapic.symbols import *", f"from library import {', '.join(imports)}", "", "fur = Furnace(d2)", "sens = DaylightSensor(d3)", "heat = WallHeater(d1)", "total = 3"]
     # a main function with a name that also exists in a library
     own = []
-    if r.random() < 0.6:
+    if sibling_tail or r.random() < 0.6:
         # equal function names in main and library collide under remove_labels (known finding C05-prefix-names)
         name = r.choice(FN) if collide else r.choice(["calc", "scale", "check"])
         sib = [f[0] for m in mods for f in handles[mods.index(m)][1] if any(f"{f[0]}(" in l and not l.startswith("def ") for l in sources[m].split("\n"))]
-        if collide and sib and r.random() < 0.6:
+        if collide and sib and (sibling_tail or r.random() < 0.6):
             name = r.choice(sib)  # the name of a library function that is called from inside its library
         body = g.function(name, 1, True, [])
         own.append((name, 1, True, True))
@@ -80,11 +83,11 @@ def generate(seed, with_unused=True, leaf_only=False, collide=True, state_only=F
             # a function that a sibling of its module already calls is not always called from the main file as well
             # (it then has a single call site inside the library)
             inner = any(f"{f[0]}(" in l and not l.startswith("def ") for l in text.split("\n"))
-            if inner and r.random() < 0.5:
+            if inner and (sibling_tail or r.random() < 0.5):
                 continue
             args = ", ".join(g.arg(vars_, 1) for _ in range(f[1]))
             body.append(f"    db.Setting = {h}.{f[0]}({args})" if f[2] else f"    {h}.{f[0]}({args})")
-            if r.random() < 0.5:
+            if sibling_tail or r.random() < 0.5:
                 args = ", ".join(g.arg(vars_, 1) for _ in range(f[1]))
                 body.append(f"    d1.Setting = {h}.{f[0]}({args})" if f[2] else f"    {h}.{f[0]}({args})")
     for f in own:
